@@ -48,25 +48,29 @@ pub fn run(input: &Value) -> Case {
     let imgs: Vec<Img> = input["imgs"].as_array().map(|a| a.iter().map(parse_img).collect()).unwrap_or_default();
     let draws: Vec<usize> = vusizes(&input["draws"]);
 
-    // Coq terms of the source images (the view the handler is given, sliced by the harness itself)
-    let mut coq_imgs = vec![];
-    let mut max_colors = 0usize;
-    let mut any_alpha = false;
-    let mut any_crop = false;
-    let mut heights = vec![];
-    let mut widths = vec![];
+    // parents: every distinct pixel buffer once (crops of one parent share it, as Image::crop does);
+    // the views are cut out of the parents by the Coq side (Corr/C12Corr.view_rows)
+    let mut parents: Vec<(usize, usize, Vec<[u8; 4]>)> = vec![];
+    let mut img_parent: Vec<usize> = vec![];
     for im in &imgs {
-        let (r0, r1, c0, c1) = im.crop.unwrap_or((0, im.h, 0, im.w));
-        any_crop |= im.crop.is_some();
+        let pos = parents.iter().position(|p| p.0 == im.w && p.1 == im.h && p.2 == im.data);
+        let idx = match pos {
+            Some(i) => i,
+            None => {
+                parents.push((im.w, im.h, im.data.clone()));
+                parents.len() - 1
+            }
+        };
+        img_parent.push(idx);
+    }
+    let mut coq_parents = vec![];
+    let mut any_alpha = false;
+    for (w, h, data) in &parents {
         let mut rows = vec![];
-        let mut distinct: Vec<[u8; 4]> = vec![];
-        for r in r0..r1.min(im.h) {
+        for r in 0..*h {
             let mut row = vec![];
-            for c in c0..c1.min(im.w) {
-                let p = im.data[r * im.w + c];
-                if !distinct.contains(&p) {
-                    distinct.push(p);
-                }
+            for c in 0..*w {
+                let p = data[r * w + c];
                 if p[3] == 255 {
                     row.push(format!("Opaque {}", crgb(&[p[0], p[1], p[2]])));
                 } else {
@@ -77,27 +81,59 @@ pub fn run(input: &Value) -> Case {
             }
             rows.push(clist(row));
         }
+        coq_parents.push(clist(rows));
+    }
+    let mut coq_imgs = vec![];
+    let mut max_colors = 0usize;
+    let mut any_crop = false;
+    let mut heights = vec![];
+    let mut widths = vec![];
+    for (k, im) in imgs.iter().enumerate() {
+        let (r0, r1, c0, c1) = im.crop.unwrap_or((0, im.h, 0, im.w));
+        any_crop |= im.crop.is_some();
+        let mut distinct: Vec<[u8; 4]> = vec![];
+        for r in r0..r1.min(im.h) {
+            for c in c0..c1.min(im.w) {
+                let p = im.data[r * im.w + c];
+                if !distinct.contains(&p) {
+                    distinct.push(p);
+                }
+            }
+        }
         heights.push(r1.min(im.h).saturating_sub(r0));
         widths.push(c1.min(im.w).saturating_sub(c0));
         max_colors = max_colors.max(distinct.len());
-        coq_imgs.push(clist(rows));
+        coq_imgs.push(format!(
+            "({}%nat, {})",
+            img_parent[k],
+            match im.crop {
+                None => "None".to_string(),
+                Some((r0, r1, c0, c1)) => format!("Some ({}%nat, {}%nat, {}%nat, {}%nat)", r0, r1, c0, c1),
+            }
+        ));
     }
+    let shared_parent = img_parent.len() > parents.len();
 
-    // the implementation: one handler, the draws in order
-    let imgs_for_run: Vec<(usize, usize, Vec<[u8; 4]>, Option<(usize, usize, usize, usize)>)> =
-        imgs.iter().map(|i| (i.w, i.h, i.data.clone(), i.crop)).collect();
+    // the implementation: one handler, one Image (one Arc'd buffer) per parent, crops taken from it
+    let crops: Vec<Option<(usize, usize, usize, usize)>> = imgs.iter().map(|i| i.crop).collect();
+    let parents_for_run = parents.clone();
+    let img_parent2 = img_parent.clone();
     let draws2 = draws.clone();
     let outs: Option<Vec<Vec<u8>>> = catch(move || {
         let mut handler = SixelImageHandler::new(bg_rgba);
+        let parent_imgs: Vec<Image> = parents_for_run
+            .iter()
+            .map(|(w, h, data)| {
+                let pixels: Vec<RGBA> = data.iter().map(|p| RGBA::new(p[0], p[1], p[2], p[3])).collect();
+                Image::from_parts(pixels.into(), Shape::from(Size::new(*h, *w)))
+            })
+            .collect();
         let mut outs = vec![];
         for d in draws2 {
-            let (w, h, data, crop) = &imgs_for_run[d];
-            let pixels: Vec<RGBA> = data.iter().map(|p| RGBA::new(p[0], p[1], p[2], p[3])).collect();
-            // a fresh Image object of the same content every time: the cache is keyed by content
-            let img = Image::from_parts(pixels.into(), Shape::from(Size::new(*h, *w)));
-            let img = match crop {
-                None => img,
-                Some((r0, r1, c0, c1)) => img.crop(*r0..*r1, *c0..*c1),
+            let parent = &parent_imgs[img_parent2[d]];
+            let img = match crops[d] {
+                None => parent.clone(),
+                Some((r0, r1, c0, c1)) => parent.crop(r0..r1, c0..c1),
             };
             let mut out: Vec<u8> = Vec::new();
             handler.draw(&mut out, &img, Position::origin()).expect("draw");
@@ -133,6 +169,7 @@ pub fn run(input: &Value) -> Case {
         format!("colors={}", match max_colors { 0..=1 => "1", 2..=16 => "2-16", 17..=256 => "17-256", _ => ">256" }),
         format!("alpha={}", any_alpha),
         format!("crop={}", any_crop),
+        format!("crops_of_shared_buffer={}", shared_parent),
         format!("repeated={}", repeated),
         format!("bg={}", bg.is_some()),
     ];
@@ -140,7 +177,7 @@ pub fn run(input: &Value) -> Case {
         tags.push(format!("height={}", hb(*h)));
     }
     Case {
-        coq: format!("SIX {} {}", clist(coq_imgs), coq_draws),
+        coq: format!("SIX {} {} {}", clist(coq_parents), clist(coq_imgs), coq_draws),
         json: j,
         tags,
         nontrivial: max_colors >= 2 && heights.iter().any(|h| *h >= 6) && widths.iter().any(|w| *w >= 1),
